@@ -71,19 +71,54 @@ def unit_oracle(ctx, sp, o):
     v = {t: p[t] + cfv[t] * h[t] for t in steps}
     has_on = ('bool_on', None) in var
     has_start = ('bool_start', None) in var
-    tol = 1e-6 * (1 + a['max_cap'] * max(dt.values()))
+    maxc = ref.pvec(a['max_cap'], sp, tp)
+    tol = 1e-6 * (1 + float(np.nanmax(maxc)) * max(dt.values()))
     on = {t: (x[var[('bool_on', None)][t]] if has_on else (1.0 if v[t] > tol else 0.0)) for t in steps}
     st = {t: (x[var[('bool_start', None)][t]] if has_start else None) for t in steps}
     bad = {}
     onb = [int(round(on[t])) for t in steps]
+    # ---- start / shutdown ramp profiles (given in the frequency of the grid): bounds in MW x nominal step length
+    srl = list(a.get('start_ramp_lower_bounds') or [])
+    srh = list(a.get('start_ramp_upper_bounds') or srl)
+    sdl = list(a.get('shutdown_ramp_lower_bounds') or [])
+    sdh = list(a.get('shutdown_ramp_upper_bounds') or sdl)
+    S, Dn = len(srl), len(sdl)
+    conv = gen.freq_td(g['freq']) / gen.freq_td(g.get('unit', 'h'))
+    tar0 = steps_of(a.get('time_already_running', 0), g)
+    prev0 = 1 if tar0 > 0 else 0
+    window = {}          # position in steps -> (lower, upper, what): the profile taking precedence there
+    rel_up, rel_lo = set(), set()     # positions whose upward / downward ramp limit is released by a profile
+    if S or Dn:
+        for k in range(len(steps)):
+            before = onb[k - 1] if k > 0 else prev0
+            if before == 0 and onb[k] == 1:
+                for j in range(S):
+                    if k + j < len(steps):
+                        window[k + j] = (srl[j] * conv, srh[j] * conv, 'start profile step %d' % j)
+                        rel_up.add(k + j)
+            if before == 1 and onb[k] == 0:
+                for j in range(Dn):
+                    if k - 1 - j >= 0:
+                        window[k - 1 - j] = (sdl[j] * conv, sdh[j] * conv, 'shutdown profile step %d' % j)
+                for j in range(Dn + 1):
+                    rel_lo.add(k - j)
+        if 0 < tar0 < S:
+            for i in range(S - tar0):
+                if i < len(steps):
+                    window[i] = (srl[tar0 + i] * conv, srh[tar0 + i] * conv, 'start profile step %d (started before the horizon)' % (tar0 + i))
+                    rel_up.add(i)
     # ---- capacity when on / off
-    for t in steps:
+    for k, t in enumerate(steps):
         if abs(on[t] - round(on[t])) > 1e-6:
             bad['on flag not 0/1'] = [t, on[t]]
-        lo, hi = a['min_cap'] * dt[t], a['max_cap'] * dt[t]
+        lo, hi = a['min_cap'] * dt[t], maxc[t] * dt[t]
         if round(on[t]) == 0 and abs(v[t]) > tol and has_on:
             bad['output while off'] = [t, v[t]]
-        if round(on[t]) == 1 and (v[t] < lo - tol or v[t] > hi + tol):
+        if k in window and round(on[t]) == 1:
+            wl, wh, what = window[k]
+            if v[t] < wl - tol or v[t] > wh + tol:
+                bad['output outside the declared ' + what.split(' step')[0]] = [t, v[t], wl, wh, what]
+        elif round(on[t]) == 1 and (v[t] < lo - tol or v[t] > hi + tol):
             bad['output outside [min_cap, max_cap] while on'] = [t, v[t], lo, hi]
         if p[t] < -tol or h[t] < -tol:
             bad['negative output'] = [t, p[t], h[t]]
@@ -96,7 +131,12 @@ def unit_oracle(ctx, sp, o):
         for k in range(1, len(seq)):
             if k == 1 and steps[0] != 0:
                 continue            # the unit's window starts inside the horizon: 'last dispatch' refers to the horizon start
-            if abs(seq[k] - seq[k - 1]) > rp + tol:
+            up, down = seq[k] - seq[k - 1], seq[k - 1] - seq[k]
+            if (k - 1) in rel_up:
+                up = 0.0
+            if (k - 1) in rel_lo:
+                down = 0.0
+            if max(up, down) > rp + tol:
                 bad['change of output above the ramp' + (' (first step vs last dispatch)' if k == 1 else '')] = [steps[k - 1], seq[k - 1], seq[k], rp]
                 break
     # ---- starts
@@ -115,7 +155,7 @@ def unit_oracle(ctx, sp, o):
             if charged and st[t] > trans + 1e-6:
                 bad['start flagged (and charged) without transition'] = [t, st[t]]
     # ---- run times
-    R = steps_of(a.get('min_runtime', 0), g)
+    R = steps_of(a.get('min_runtime', 0), g) + S + Dn        # start and shutdown ramp time do not count towards the minimum run time
     D = steps_of(a.get('min_downtime', 0), g)
     tarS, toffS = steps_of(tar, g), steps_of(toff, g)
     if has_on and steps[0] == 0 and not runlength_ok(onb, R, D, tarS, toffS):
@@ -159,8 +199,8 @@ def pattern_oracle(ctx, sp, o):
         return
     g = sp['grid']
     a = [x for x in sp['assets'] if x['kind'] in ('Plant', 'CHPAsset')][0]
-    if o.get('pattern_steps', [1])[0] != 0:
-        return
+    if o.get('pattern_steps', [1])[0] != 0 or a.get('start_ramp_lower_bounds') or a.get('shutdown_ramp_lower_bounds'):
+        return          # with profiles a pattern can also fail for its continuous part (profile values vs capacities / ramp)
     R, D = steps_of(a.get('min_runtime', 0), g), steps_of(a.get('min_downtime', 0), g)
     tar, toff = steps_of(a.get('time_already_running', 0), g), steps_of(a.get('time_already_off', 0), g)
     ctx.cov['impl_oracle_evaluations'] += len(pats)
@@ -180,6 +220,22 @@ def run(ctx):
         return
     n = 60 if ctx.tier == 'quick' else 400
     specs = util.corpus(ctx.prop) + gen.gen_many_plants(ctx.seed, n, CFG, 'c06_')
+    # start / shutdown ramp profiles; every second portfolio was set up before (same objects, other prices)
+    prof = gen.gen_many_plants(ctx.seed, n // 2, dict(CFG, p_profile=1.0, freqs=['h', '2h', '30min'], T=(5, 9)), 'c06p_')
+    for i, sp in enumerate(prof):
+        if i % 2:
+            sp['opts']['warmup'] = 'setup'
+    specs += prof
+    # horizons shorter than what is left of the minimum run time / down time
+    short = gen.gen_many_plants(ctx.seed, n // 4, dict(CFG, T=(2, 3), freqs=['h']), 'c06s_')
+    for sp in short:
+        a = [x for x in sp['assets'] if x['kind'] in ('Plant', 'CHPAsset')][0]
+        if a.get('time_already_running'):
+            a['min_runtime'] = a['time_already_running'] + sp['grid']['T'] + 2
+            a['start_costs'] = a.get('start_costs') or 2.5
+        else:
+            a['min_downtime'] = a['time_already_off'] + sp['grid']['T'] + 2
+    specs += short
     for i, sp in enumerate(specs):
         sp['opts'].setdefault('max_pattern_T', 6 if (i % 3 == 0) else 0)
     specs = ctx.specs(specs)
@@ -193,7 +249,7 @@ def run(ctx):
         ctx.count('solve:' + str(o.get('solve')))
         a = [x for x in sp['assets'] if x['kind'] in ('Plant', 'CHPAsset')][0]
         ctx.count('kind:' + a['kind'] + ('+fuel' if len(a['nodes']) > (2 if a['kind'] == 'CHPAsset' else 1) else ''))
-        for k in ('ramp', 'min_runtime', 'min_downtime', 'start_costs', 'start_fuel', 'consumption_if_on', 'max_share_heat', 'time_already_running'):
+        for k in ('ramp', 'min_runtime', 'min_downtime', 'start_costs', 'start_fuel', 'consumption_if_on', 'max_share_heat', 'time_already_running', 'start_ramp_lower_bounds', 'shutdown_ramp_lower_bounds'):
             if a.get(k):
                 ctx.count('feature:' + k)
         if o.get('solve') == 'optimal' and o.get('x'):
